@@ -1,7 +1,7 @@
 // Bounded stand-ins for properties C08 (no panic on any input) and C09 (time / memory budget).
-// Injected into package jpeg2000 by `go test -overlay`; never copied into /repo. See ../README.md (or ../../README.md).
+// Injected into package jpeg2000/htj2k by `go test -overlay`; never copied into /repo. See ../README.md (or ../../README.md).
 
-package jpeg2000
+package htj2k
 
 import (
 	"encoding/binary"
@@ -18,6 +18,9 @@ import (
 	"sync/atomic"
 	"testing"
 	"time"
+
+	codecHelpers "github.com/cocosip/go-dicom-codecs/codec"
+	"github.com/cocosip/go-dicom/pkg/imaging/imagetypes"
 )
 
 // ---------------------------------------------------------------------------------------------
@@ -909,93 +912,171 @@ func verifC08ManyComponents(b verifC08Base, csiz int, ext uint32, layers int) (v
 		kind: "special", off: csiz, val: layers, data: d}, true
 }
 
-const verifC08Pkg = "jpeg2000"
+const verifC08Pkg = "jpeg2000/htj2k"
 
-type verifC08J2KCfg struct {
-	w, h, comps, bits int
-	signed            bool
-	levels, layers    int
-	lossless, mct     bool
-	tw, th            int
-	cbw, cbh          int
-	prog              uint8
-	pw, ph            int
-	roi, mctBind      bool
+// Two decoding entry points with different input domains live in this package:
+//   - (*htj2k.Codec).Decode: a whole HTJ2K codestream (JPEG 2000 decoder object + HT block decoder factory);
+//   - (*htj2k.HTDecoder).Decode / DecodeWithBitplane / DecodeLayered: one HT code-block byte string.
+//
+// verifC08Block selects the second one for the case that is currently enumerated.
+type verifC08BlockCtx struct{ w, h, kmax, msbs int }
+
+var verifC08Block *verifC08BlockCtx
+
+func verifC08DeclaredHT(data []byte) (int64, bool, int64) {
+	if verifC08Block != nil {
+		return 0, false, 0 // a code-block declares no image size
+	}
+	return verifC08Declared(data)
 }
 
-func (c verifC08J2KCfg) String() string {
-	return fmt.Sprintf("jpeg2000.Encoder %dx%d comps=%d bits=%d signed=%v levels=%d layers=%d lossless=%v mct=%v tile=%dx%d cblk=%dx%d prog=%d precinct=%dx%d",
-		c.w, c.h, c.comps, c.bits, c.signed, c.levels, c.layers, c.lossless, c.mct, c.tw, c.th, c.cbw, c.cbh, c.prog, c.pw, c.ph) + map[bool]string{true: " ROI(2,2,4x4,shift3)"}[c.roi] + map[bool]string{true: " MCTBinding(identity+offsets)"}[c.mctBind]
+func verifC08Info(w, h, comps, bits int) *imagetypes.FrameInfo {
+	pi := "MONOCHROME2"
+	if comps == 3 {
+		pi = "RGB"
+	}
+	return &imagetypes.FrameInfo{Width: uint16(w), Height: uint16(h), BitsAllocated: uint16(bits), BitsStored: uint16(bits), HighBit: uint16(bits - 1),
+		SamplesPerPixel: uint16(comps), PhotometricInterpretation: pi}
 }
 
 func verifC08Bases(t *testing.T) []verifC08Base {
-	cfgs := []verifC08J2KCfg{
-		{w: 1, h: 1, comps: 1, bits: 8, levels: 0, layers: 1, lossless: true, cbw: 64, cbh: 64},
-		{w: 8, h: 8, comps: 1, bits: 8, levels: 1, layers: 1, lossless: true, cbw: 64, cbh: 64},
-		{w: 17, h: 5, comps: 1, bits: 16, levels: 2, layers: 1, lossless: true, cbw: 64, cbh: 64},
-		{w: 17, h: 5, comps: 3, bits: 8, levels: 1, layers: 1, lossless: true, mct: true, cbw: 64, cbh: 64},
-		{w: 17, h: 5, comps: 3, bits: 8, levels: 1, layers: 1, lossless: true, mct: false, cbw: 64, cbh: 64},
-		{w: 8, h: 8, comps: 3, bits: 8, levels: 2, layers: 1, lossless: false, mct: true, cbw: 64, cbh: 64},
-		{w: 17, h: 5, comps: 1, bits: 12, levels: 1, layers: 2, lossless: true, cbw: 64, cbh: 64},
-		{w: 17, h: 5, comps: 1, bits: 8, levels: 1, layers: 1, lossless: true, tw: 8, th: 4, cbw: 64, cbh: 64},
-		{w: 33, h: 20, comps: 1, bits: 8, levels: 2, layers: 2, lossless: false, tw: 16, th: 16, cbw: 4, cbh: 4, prog: 2, pw: 16, ph: 16},
-		{w: 8, h: 8, comps: 1, bits: 16, signed: true, levels: 0, layers: 1, lossless: true, cbw: 8, cbh: 8, prog: 4},
-		{w: 8, h: 8, comps: 1, bits: 8, levels: 1, layers: 1, lossless: true, cbw: 64, cbh: 64, roi: true},
-		{w: 8, h: 8, comps: 2, bits: 8, levels: 0, layers: 1, lossless: true, mct: true, cbw: 64, cbh: 64, mctBind: true},
-	}
 	var out []verifC08Base
+	type cfg struct {
+		w, h, comps, bits int
+		codec             string
+		levels            int
+	}
+	cfgs := []cfg{
+		{1, 1, 1, 8, "lossless", 0}, {8, 8, 1, 8, "lossless", 1}, {17, 5, 1, 16, "lossless", 2}, {17, 5, 3, 8, "lossless", 1},
+		{8, 8, 3, 8, "lossy80", 2}, {17, 5, 1, 8, "losslessRPCL", 1}, {33, 20, 1, 16, "lossy50", 2}, {8, 8, 3, 16, "losslessRPCL", 0},
+	}
 	for _, c := range cfgs {
 		c := c
+		name := fmt.Sprintf("htj2k.Codec(%s).Encode %dx%d comps=%d bits=%d levels=%d block=64x64", c.codec, c.w, c.h, c.comps, c.bits, c.levels)
 		func() {
 			defer func() {
 				if p := recover(); p != nil {
-					t.Logf("encoder panicked for %s: %v", c, p)
+					t.Logf("encoder panicked for %s: %v", name, p)
 				}
 			}()
-			p := DefaultEncodeParams(c.w, c.h, c.comps, c.bits, c.signed)
-			p.NumLevels, p.NumLayers, p.Lossless, p.EnableMCT = c.levels, c.layers, c.lossless, c.mct
-			p.TileWidth, p.TileHeight, p.CodeBlockWidth, p.CodeBlockHeight = c.tw, c.th, c.cbw, c.cbh
-			p.ProgressionOrder, p.PrecinctWidth, p.PrecinctHeight = c.prog, c.pw, c.ph
-			if c.roi {
-				p.ROI = &ROIParams{X0: 2, Y0: 2, Width: 4, Height: 4, Shift: 3}
+			var cd *Codec
+			var params *Parameters
+			switch c.codec {
+			case "lossless":
+				cd, params = NewLosslessCodec(), NewHTJ2KLosslessParameters()
+			case "losslessRPCL":
+				cd, params = NewLosslessRPCLCodec(), NewHTJ2KLosslessParameters()
+			case "lossy80":
+				cd, params = NewCodec(80), NewHTJ2KParameters().WithQuality(80)
+			default:
+				cd, params = NewCodec(50), NewHTJ2KParameters().WithQuality(50)
 			}
-			if c.mctBind {
-				p.MCTBindings = []MCTBindingParams{{AssocType: 2, ComponentIDs: []uint16{0, 1}, Matrix: [][]float64{{1, 0}, {0, 1}},
-					Inverse: [][]float64{{1, 0}, {0, 1}}, Offsets: []int32{5, -5}, ElementType: 1}}
-			}
-			d, err := NewEncoder(p).Encode(verifC08J2KPixels(c.w, c.h, c.comps, c.bits, 7))
-			if err != nil {
-				t.Logf("encoder refused %s: %v", c, err)
+			params = params.WithNumLevels(c.levels)
+			info := verifC08Info(c.w, c.h, c.comps, c.bits)
+			src, dst := codecHelpers.NewTestPixelData(info), codecHelpers.NewTestPixelData(info)
+			_ = src.AddFrame(verifC08J2KPixels(c.w, c.h, c.comps, c.bits, 7))
+			if err := cd.Encode(src, dst, params); err != nil {
+				t.Logf("encoder refused %s: %v", name, err)
 				return
 			}
-			chk := NewDecoder()
-			if err := chk.Decode(d); err != nil {
-				t.Logf("decoder rejects the encoder's own output for %s: %v", c, err)
+			d, _ := dst.GetFrame(0)
+			chk := codecHelpers.NewTestPixelData(info)
+			in := codecHelpers.NewTestPixelData(info)
+			_ = in.AddFrame(d)
+			if err := cd.Decode(in, chk, nil); err != nil {
+				t.Logf("decoder rejects the encoder's own output for %s: %v", name, err)
 			}
-			out = append(out, verifC08Base{name: c.String(), data: d})
+			out = append(out, verifC08Base{name: name, data: append([]byte(nil), d...)})
 		}()
 	}
 	return out
 }
 
-func verifC08UseDecoder(d *Decoder, data []byte) bool {
-	if err := d.Decode(data); err != nil {
-		return false
+// verifC08BlockBases: HT cleanup code-blocks from the package's own block encoder.
+type verifC08BlockBase struct {
+	ctx verifC08BlockCtx
+	verifC08Base
+}
+
+func verifC08BlockBases(t *testing.T) []verifC08BlockBase {
+	var out []verifC08BlockBase
+	for _, g := range [][2]int{{1, 1}, {2, 2}, {4, 4}, {8, 8}, {17, 5}, {64, 64}, {3, 1}, {1, 7}} {
+		for _, kmax := range []int{1, 8, 16, 24} {
+			if kmax != 8 && g[0] != 8 {
+				continue
+			}
+			w, h := g[0], g[1]
+			rng := rand.New(rand.NewSource(int64(w*131 + h*7 + kmax)))
+			coeffs := make([]int32, w*h)
+			for i := range coeffs {
+				lim := int32(1) << uint(kmax-1)
+				if lim > 1<<20 {
+					lim = 1 << 20
+				}
+				switch (i / 3) % 3 {
+				case 0:
+					coeffs[i] = rng.Int31n(lim) - lim/2
+				case 1:
+					coeffs[i] = 0
+				default:
+					coeffs[i] = int32(i%5) - 2
+				}
+			}
+			name := fmt.Sprintf("HTEncoder(%dx%d,Kmax=%d).Encode", w, h, kmax)
+			func() {
+				defer func() {
+					if p := recover(); p != nil {
+						t.Logf("block encoder panicked for %s: %v", name, p)
+					}
+				}()
+				enc := NewHTEncoder(w, h)
+				enc.SetKMax(kmax)
+				d, err := enc.Encode(coeffs, 1, 0)
+				if err != nil {
+					t.Logf("block encoder refused %s: %v", name, err)
+					return
+				}
+				out = append(out, verifC08BlockBase{ctx: verifC08BlockCtx{w: w, h: h, kmax: kmax}, verifC08Base: verifC08Base{name: name, data: append([]byte(nil), d...)}})
+			}()
+		}
 	}
-	_ = d.GetPixelData()
-	_ = d.GetImageData()
-	_, _ = d.GetComponentData(0)
-	_, _, _, _, _ = d.Width(), d.Height(), d.Components(), d.BitDepth(), d.IsSigned()
-	return true
+	return out
 }
 
 func verifC08Decoders() []verifC08Decoder {
+	codecDecode := func(cd *Codec, params *Parameters) func(d []byte) bool {
+		return func(d []byte) bool {
+			info := verifC08Info(0, 0, 1, 16)
+			src, dst := codecHelpers.NewTestPixelData(info), codecHelpers.NewTestPixelData(info)
+			_ = src.AddFrame(d)
+			if params == nil {
+				return cd.Decode(src, dst, nil) == nil
+			}
+			return cd.Decode(src, dst, params) == nil
+		}
+	}
+	lossless, lossy := codecDecode(NewLosslessCodec(), nil), codecDecode(NewCodec(80), NewHTJ2KParameters())
 	return []verifC08Decoder{
-		{name: "jpeg2000.NewDecoder().Decode+GetPixelData", fn: func(d []byte) bool { return verifC08UseDecoder(NewDecoder(), d) }},
-		{name: "jpeg2000.NewDecoder()+SetResilient(true).Decode+GetPixelData", fn: func(d []byte) bool {
-			dec := NewDecoder()
-			dec.SetResilient(true)
-			return verifC08UseDecoder(dec, d)
+		{name: "(*htj2k.Codec).Decode[lossless codec, nil params] | HTDecoder.Decode", fn: func(d []byte) bool {
+			if b := verifC08Block; b != nil {
+				dec := NewHTDecoder(b.w, b.h)
+				dec.SetCodingContext(b.kmax, b.msbs)
+				_, err := dec.Decode(d, 1)
+				_ = dec.GetData()
+				return err == nil
+			}
+			return lossless(d)
+		}},
+		{name: "(*htj2k.Codec).Decode[lossy codec, typed params] | HTDecoder.DecodeWithBitplane+DecodeLayered", fn: func(d []byte) bool {
+			if b := verifC08Block; b != nil {
+				dec := NewHTDecoder(b.w, b.h)
+				dec.SetCodingContext(b.kmax, b.msbs)
+				err1 := dec.DecodeWithBitplane(d, 1, b.kmax-1, 0)
+				dec.Reset()
+				err2 := dec.DecodeLayered(d, []int{len(d)}, b.kmax-1, 0)
+				return err1 == nil && err2 == nil
+			}
+			return lossy(d)
 		}},
 	}
 }
@@ -1003,101 +1084,145 @@ func verifC08Decoders() []verifC08Decoder {
 // verifC08Excluded lists recipes (verifC08Case.key) that abort the whole test process (out of memory, or a
 // decode that does not return within the watchdog limit); each one is a recorded violation and is not executed
 // so that the remaining domain can run. Set VERIF_RUN_EXCLUDED=1 to execute them anyway.
-var verifC08Excluded = map[string]verifC08Excl{
-	// C09 violation (time): a 478 byte codestream declaring 17x17x16 = 4624 samples and 65535 quality layers
-	// decodes "successfully" (err == nil) after 15.4 s on the reference machine (40 s with Csiz=64, 100 s with
-	// Csiz=64 and 256x256, all S <= 2^22). The packet loop in t2 iterates layers x components x resolutions
-	// although the input ended after the first packets.
-	"jpeg2000.Encoder 17x5 comps=3 bits=8 signed=false levels=1 layers=1 lossless=true mct=false tile=0x0 cblk=64x64 prog=0 precinct=0x0 with Csiz=16 (consistent component table),Xsiz=Ysiz=XTsiz=YTsiz=17,COD.layers=65535|special|16|65535": {
-		why: "decode returns only after ~15 s (> 10 s) for a 478 byte input with declared S=4624"},
-	"jpeg2000.Encoder 17x5 comps=3 bits=8 signed=false levels=1 layers=1 lossless=true mct=false tile=0x0 cblk=64x64 prog=0 precinct=0x0 with Csiz=64 (consistent component table),Xsiz=Ysiz=XTsiz=YTsiz=17,COD.layers=65535|special|64|65535": {
-		why: "decode returns only after ~41 s (> 10 s) for a 622 byte input with declared S=18496"},
-	// C09 violation (time): 251 byte codestream (RPCL, 16x16 precincts, 4x4 code-blocks), SIZ rewritten to one
-	// 2048x2048 tile resp. one 4194304x1 tile (S = 2^22) and COD.layers=256: no return after 150 s.
-	"jpeg2000.Encoder 33x20 comps=1 bits=8 signed=false levels=2 layers=2 lossless=false mct=false tile=16x16 cblk=4x4 prog=2 precinct=16x16 with Xsiz=2048,Ysiz=2048,XTsiz=2048,YTsiz=2048,COD.layers=256|special|38|256": {
-		why: "decode does not return within 12 s (251 byte input, declared S=2^22)"},
-	"jpeg2000.Encoder 33x20 comps=1 bits=8 signed=false levels=2 layers=2 lossless=false mct=false tile=16x16 cblk=4x4 prog=2 precinct=16x16 with Xsiz=4194304,Ysiz=1,XTsiz=4194304,YTsiz=1,COD.layers=256|special|50|256": {
-		why: "decode does not return within 150 s (251 byte input, declared S=2^22)"},
-}
+var verifC08Excluded = map[string]verifC08Excl{}
 
 func verifC08Setup(t *testing.T) (decs []verifC08Decoder, enumerate func(fn func(c *verifC08Case) bool), domain string) {
 	bases := verifC08Bases(t)
 	if len(bases) < 4 {
 		t.Fatalf("too few base streams: %d", len(bases))
 	}
+	blocks := verifC08BlockBases(t)
 	prefixes := []verifC08Base{{name: "prefix=SOC", data: []byte{0xFF, 0x4F}}}
-	if p := verifC08FindSeg(bases[1].data, 0x51); p == 2 {
-		l := int(bases[1].data[4])<<8 | int(bases[1].data[5])
-		prefixes = append(prefixes, verifC08Base{name: "prefix=SOC+SIZ of " + bases[1].name, data: bases[1].data[:4+l]})
-	}
 	for _, i := range []int{1, 3} {
 		prefixes = append(prefixes, verifC08Base{name: "prefix=header-through-SOD of " + bases[i].name, data: verifC08ThroughSOD(bases[i].data)})
 	}
-	sel := []verifC08Base{bases[1], bases[3]}
-	if len(bases) > 7 {
-		sel = append(sel, bases[7])
-	}
-	specials := append(verifC08SIZSpecials(sel), verifC08CODSpecials(sel[:2], verifC08Tier())...)
-	for _, i := range []int{1, 3, 5} {
-		maxLayers := 0xffff
-		if i != 1 && verifC08Tier() != "thorough" {
-			maxLayers = 256 // 3-component streams with 4096+ layers cost 0.5-7 s each
-		}
-		specials = append(specials, verifC08BudgetSpecials(bases[i], maxLayers)...)
-	}
-	// RPCL + 16x16 precincts + 4x4 code-blocks: the decoder's work grows with extent x layers although the input
-	// stays 251 bytes; only the small extents are executed, two large ones are recorded in verifC08Excluded
-	// (1024x1024 with 256 layers takes ~10 s and is left out to keep the verdict deterministic).
-	for _, c := range verifC08BudgetSpecials(bases[8], 256) {
-		_, ex := verifC08Excluded[c.key()]
-		if ex || strings.Contains(c.base, " with Xsiz=64,") || strings.Contains(c.base, " with Xsiz=256,") {
-			specials = append(specials, c)
-		}
-	}
-	// 16 components x 65535 layers on a 17x17 image: see verifC08Excluded
-	for _, cl := range [][2]int{{16, 1024}, {16, 0xffff}, {64, 0xffff}} {
-		if c, ok := verifC08ManyComponents(bases[4], cl[0], 17, cl[1]); ok {
-			specials = append(specials, c)
-		}
-	}
 	tier, seed := verifC08Tier(), verifC08Seed()
+	specials := append(verifC08SIZSpecials([]verifC08Base{bases[1], bases[3]}), verifC08CODSpecials([]verifC08Base{bases[1]}, tier)...)
+	specials = append(specials, verifC08BudgetSpecials(bases[1], 0xffff)...)
+	specials = append(specials, verifC08BudgetSpecials(bases[5], 256)...)
+	// CAP / other HT-specific main header segments: all 256 values of every byte
+	for _, s := range verifC08Segments(bases[1].data) {
+		m := bases[1].data[s[0]+1]
+		if m == 0x51 || m == 0x52 || m == 0x5C || m == 0x64 {
+			continue
+		}
+		for o := s[0] + 2; o < s[1]; o++ {
+			for v := 0; v < 256; v++ {
+				if int(bases[1].data[o]) == v {
+					continue
+				}
+				d := append([]byte(nil), bases[1].data...)
+				d[o] = byte(v)
+				specials = append(specials, verifC08Case{base: fmt.Sprintf("%s with byte %d of the FF%02X segment at %d", bases[1].name, o-s[0], m, s[0]), kind: "segbyte", off: o, val: v, data: d})
+			}
+		}
+	}
 	enumerate = func(fn0 func(c *verifC08Case) bool) {
 		stopped := false
 		sampledOut := 0
 		fn := verifC08QuickFilter(tier, bases, map[int]bool{1: true}, &sampledOut, fn0)
 		defer func() {
+			verifC08Block = nil
 			if sampledOut > 0 {
 				fmt.Printf("VERIF-C08-NOTE %d inputs with > 1024 declared layers sampled out in quick tier\n", sampledOut)
 			}
 		}()
-		verifC08Enumerate(bases, prefixes, verifC08Markers, verifC08Segments, tier, seed, func(c *verifC08Case) bool {
+		wrap := func(c *verifC08Case) bool {
 			if !fn(c) {
 				stopped = true
 				return false
 			}
 			return true
-		})
+		}
+		verifC08Block = nil
+		verifC08Enumerate(bases, prefixes, verifC08Markers, verifC08Segments, tier, seed, wrap)
 		for i := range specials {
 			if stopped || !fn(&specials[i]) {
 				return
 			}
 		}
+		// ---- code-block level domain ----
+		for bi := range blocks {
+			b := &blocks[bi]
+			for _, msbs := range []int{0, 1, b.ctx.kmax - 1, b.ctx.kmax, 29, 30, -1} {
+				if msbs != 0 && (bi%4 != 0 || (len(b.data) > 256 && tier != "thorough")) {
+					continue
+				}
+				ctx := b.ctx
+				ctx.msbs = msbs
+				verifC08Block = &ctx
+				nb := b.verifC08Base
+				nb.name = fmt.Sprintf("code-block %s decoded as %dx%d Kmax=%d missingMSBs=%d", b.name, ctx.w, ctx.h, ctx.kmax, ctx.msbs)
+				pre := []verifC08Base{{name: "code-block prefix=none (pure random) decoded as " + nb.name}}
+				if len(nb.data) > 64 && tier != "thorough" {
+					pre = nil
+				}
+				verifC08Enumerate([]verifC08Base{nb}, pre, nil, nil, tier, seed+int64(bi), wrap)
+				if stopped {
+					return
+				}
+				// every 1-byte and a grid of 2-byte code-blocks, and every value of the two Scup locator bytes
+				if msbs == 0 {
+					for v := 0; v < 256; v++ {
+						if !wrap(&verifC08Case{base: nb.name, kind: "cblk1", off: 0, val: v, data: []byte{byte(v)}}) {
+							return
+						}
+					}
+					for v := 0; v < 65536; v += 257 {
+						if !wrap(&verifC08Case{base: nb.name, kind: "cblk2", off: 0, val: v, data: []byte{byte(v >> 8), byte(v)}}) {
+							return
+						}
+					}
+					if n := len(nb.data); n >= 2 {
+						for v := 0; v < 65536; v += 61 {
+							d := append([]byte(nil), nb.data...)
+							d[n-2], d[n-1] = byte(v>>8), byte(v)
+							if !wrap(&verifC08Case{base: nb.name, kind: "scup", off: n - 2, val: v, data: d}) {
+								return
+							}
+						}
+					}
+				}
+				// decoding a valid block with mismatching block dimensions
+				if msbs == 0 {
+					for _, dim := range [][2]int{{0, 0}, {1, 1}, {2, 1}, {3, 3}, {4, 4}, {64, 64}, {1024, 1}, {1, 1024}, {5, 17}} {
+						c2 := ctx
+						c2.w, c2.h = dim[0], dim[1]
+						verifC08Block = &c2
+						if !wrap(&verifC08Case{base: fmt.Sprintf("code-block %s decoded as %dx%d Kmax=%d missingMSBs=0", b.name, c2.w, c2.h, c2.kmax), kind: "cblkdim", off: dim[0], val: dim[1], data: append([]byte(nil), nb.data...)}) {
+							return
+						}
+					}
+					for _, k := range []int{0, -1, 1, 2, 30, 31, 32, 33, 64} {
+						c2 := ctx
+						c2.kmax = k
+						verifC08Block = &c2
+						if !wrap(&verifC08Case{base: fmt.Sprintf("code-block %s decoded as %dx%d Kmax=%d missingMSBs=0", b.name, c2.w, c2.h, c2.kmax), kind: "cblkkmax", off: k, data: append([]byte(nil), nb.data...)}) {
+							return
+						}
+					}
+				}
+			}
+		}
+		verifC08Block = nil
 	}
-	return verifC08Decoders(), enumerate, verifC08J2KDomain(tier, len(bases), "jpeg2000.Encoder: 1x1, 8x8, 17x5, 33x20; 1, 2 and 3 components; one with ROI/RGN, one with Part-2 MCT/MCC/MCO binding; 8/12/16 bit, signed 16; 0-2 levels; 1-2 layers; reversible and irreversible; MCT on/off; single tile, 8x4 and 16x16 tiles; 64x64, 8x8, 4x4 code-blocks; LRCP/RPCL/CPRL", true)
+	domain = verifC08J2KDomain(tier, len(bases), "htj2k codecs (lossless, lossless RPCL, lossy q80/q50) Encode: 1x1, 8x8, 17x5, 33x20; 1 and 3 components; 8/16 bit; 0-2 levels", true) +
+		fmt.Sprintf("; plus all 256 values of every byte of the remaining main header segments (CAP, ...) of stream #1; plus the HT code-block domain: %d blocks from HTEncoder (1x1..64x64, Kmax 1/8/16/24) decoded by HTDecoder.Decode/DecodeWithBitplane/DecodeLayered under missingMSBs {0,1,Kmax-1,Kmax,29,30,-1}: every truncation, byte/word substitution, random strings, all 256 one-byte blocks, every 257th two-byte block, every 61st value of the 16-bit Scup locator, mismatching block dimensions and Kmax {0,-1,1,2,30..33,64}", len(blocks))
+	return verifC08Decoders(), enumerate, domain
 }
 
-func TestVerif_C08_jpeg2000(t *testing.T) {
+func TestVerif_C08_htj2k(t *testing.T) {
 	decs, enumerate, domain := verifC08Setup(t)
-	verifC08RunC08(t, verifC08Pkg, decs, verifC08Declared, verifC08Excluded, enumerate,
-		"C08 no-panic, entries Decoder object: NewDecoder().Decode then GetPixelData/GetImageData/getters (all cases), same with SetResilient(true) (accepted, panicking and every 8th case); "+domain)
+	verifC08RunC08(t, verifC08Pkg, decs, verifC08DeclaredHT, verifC08Excluded, enumerate,
+		"C08 no-panic, entries (*htj2k.Codec).Decode with lossless codec/nil params (all cases) and lossy codec/typed params (accepted, panicking and every 8th case), and the HT block decoder object; "+domain)
 }
 
-func TestVerif_C09_jpeg2000(t *testing.T) {
+func TestVerif_C09_htj2k(t *testing.T) {
 	decs, enumerate, domain := verifC08Setup(t)
 	every := 6
 	if verifC08Tier() == "thorough" {
 		every = 1
 	}
-	verifC08RunC09(t, verifC08Pkg, decs, verifC08Declared, verifC08Excluded, enumerate, every,
-		fmt.Sprintf("C09 per decode: wall <= 10 s and TotalAlloc delta (upper bound proxy for peak heap) <= 512MiB+64*S, S = (Xsiz-XOsiz)*(Ysiz-YOsiz)*Csiz of the first SIZ (0 if none or negative); sample = every case whose declared S differs from its base stream + all handcrafted specials + every %d-th case of: ", every)+domain)
+	verifC08RunC09(t, verifC08Pkg, decs, verifC08DeclaredHT, verifC08Excluded, enumerate, every,
+		fmt.Sprintf("C09 per decode: wall <= 10 s and TotalAlloc delta (upper bound proxy for peak heap) <= 512MiB+64*S, S = (Xsiz-XOsiz)*(Ysiz-YOsiz)*Csiz of the first SIZ (0 for code-blocks / if none / if negative); sample = every case whose declared S differs from its base stream + handcrafted SIZ specials + every %d-th case of: ", every)+domain)
 }
